@@ -321,6 +321,44 @@ def Safe_interLenBitmap (a b : BStore) : Prop := U64 (a.interLenBitmap b)   -- :
 instance (a b : BStore) : Decidable (Safe_interLenBitmap a b) := by unfold Safe_interLenBitmap; infer_instance
 
 end BStore
+
+/-! ## `BitmapIter` (bitmap_store.rs:459-619) -/
+namespace BIter
+
+/-- bitmap_store.rs:551-576 `next`: `self.value - 1` (:574) runs only after `self.value != 0` was established (the model's
+    `next` has the same explicit tests), `self.key + 1` (:557) only when `key < key_back`; the yielded
+    `64 * self.key + index` (:575) is computed in `u16` -/
+def Safe_next (it : BIter) : Prop :=
+  (it.value = 0 → it.key < it.keyBack → U16 (it.key + 1))     -- :557 `self.key + 1..self.key_back`
+  ∧ (match it.next.2 with
+     | some x => U16 x                                         -- :575 `Some(64 * self.key + index)`
+     | none => True)
+
+instance (it : BIter) : Decidable (Safe_next it) := by
+  unfold Safe_next
+  refine @instDecidableAnd _ _ _ ?_
+  split <;> infer_instance
+
+/-- bitmap_store.rs:598-618 `next_back`: `self.key_back -= 1` (:606) only when `key < key_back` (explicit test),
+    `63 - index_from_left` (:614) only on a non-zero word (explicit test); the yielded `64 * self.key_back + index`
+    (:616) is computed in `u16` -/
+def Safe_nextBack (it : BIter) : Prop :=
+  match it.nextBack.2 with
+  | some x => U16 x                                            -- :616
+  | none => True
+
+instance (it : BIter) : Decidable (Safe_nextBack it) := by unfold Safe_nextBack; split <;> infer_instance
+
+/-- bitmap_store.rs:481-545 `advance_to` / `advance_back_to`: the shifts `1 << bit` (:507) and
+    `u64::MAX >> (64 - bit - 1)` (:541) with `bit = index % 64` -/
+def Safe_advance (index : Nat) : Prop :=
+  wbit index < 64                                              -- :507 `(1 << bit) - 1` (and `1 << bit ≥ 1`)
+  ∧ wbit index + 1 ≤ 64 ∧ 64 - wbit index - 1 < 64             -- :541 `64 - bit - 1`, `>>` amount
+
+instance (index : Nat) : Decidable (Safe_advance index) := by unfold Safe_advance; infer_instance
+
+end BIter
+
 /-! ## `ArrayStore` (roaring/src/bitmap/store/array_store/mod.rs) -/
 namespace Arr
 
@@ -733,6 +771,11 @@ instance (v : Nat) : Decidable (Safe_split v) := by unfold Safe_split; infer_ins
 /-- treemap/util.rs:9-11 `join`: `u64::from(high) << 32` loses no bit -/
 def Safe_join (hi lo : Nat) : Prop := U64 (hi <<< 32) ∧ U64 (join hi lo)
 instance (hi lo : Nat) : Decidable (Safe_join hi lo) := by unfold Safe_join; infer_instance
+
+/-- treemap/inherent.rs:96-101 `insert_range`, a partition strictly inside the range that already exists:
+    `full_bitmap.len() - entry.insert(full_bitmap).len()` (`old` is the bitmap that was replaced) -/
+def Safe_insertRangeFull (old : Bitmap) : Prop := Bitmap.len old ≤ Bitmap.len fullBitmap   -- :100
+instance (old : Bitmap) : Decidable (Safe_insertRangeFull old) := by unfold Safe_insertRangeFull; infer_instance
 
 /-- treemap/inherent.rs:327-329 `len`: `.map(RoaringBitmap::len).sum()` over `u64` -/
 def Safe_len (t : Treemap) : Prop := U64 (Treemap.len t)
